@@ -67,6 +67,8 @@ def run_check(prop, tier, seed):
         for fn in sorted(os.listdir(cdir)):
             if fn.endswith(".json"):
                 obj = json.load(open(os.path.join(cdir, fn)))
+                if obj.get("kind") != "failing-input":
+                    continue  # a module-specific corpus case (the module runs those itself), not a replay file
                 ncorpus += 1
                 try:
                     still = mod.replay(obj)
